@@ -269,6 +269,7 @@ var want = []string{
 	"BaseProcess.CloseOutPorts", "BaseProcess.Ready", "taskQueue.NextTaskDone",
 	"InPort.Send", "InPort.CloseConnection", "InParamPort.Send", "InParamPort.CloseConnection",
 	"OutPort.Send", "OutPort.Close", "OutParamPort.Send", "OutParamPort.Close", "InParamPort.FromStr",
+	"InParamPort.AddRemotePort", "InParamPort.connectedOutParamPorts",
 	"InPort.From", "OutPort.To", "OutPort.Disconnect", "InPort.Disconnect",
 	"Workflow.Run", "Workflow.RunToProcs", "Workflow.runProcs", "Workflow.readyToRun", "Workflow.reconnectDeadEndConnections",
 	"upstreamProcsForProc", "collectUpstreamProcs", "Sink.Run", "Fail", "Failf", "CheckWithMsg",
